@@ -279,14 +279,40 @@ func execCwrite(toks []string) string {
 	// of this connection was given (it keeps it and answers later, from its own goroutine):
 	// all handles of one connection must serialise their writes with each other
 	handles := make(chan diam.Conn, 64)
-	conn, err := diam.NewConn(mc, "mem", diam.HandlerFunc(func(c diam.Conn, m *diam.Message) {
+	hf := diam.HandlerFunc(func(c diam.Conn, m *diam.Message) {
 		select {
 		case handles <- c:
 		default:
 		}
-	}), dict.Default)
-	if err != nil {
-		return "err"
+	})
+	var conn diam.Conn
+	if wt, _ := kvGet(toks, "wt"); wt == "1" {
+		// the connection belongs to a Server that has a WriteTimeout (a deadline is set before
+		// every write; the messages must still go out whole)
+		l := &scriptListener{ch: make(chan acceptRes, 2)}
+		srv := &diam.Server{Handler: hf, Dict: dict.Default, WriteTimeout: 5 * time.Second}
+		done := make(chan error, 1)
+		go func() { done <- srv.Serve(l) }()
+		l.ch <- acceptRes{c: mc}
+		mc.deliver(simpleMsg(280, 0x80, 0, 8999, 8999, diam.NewAVP(264, 0x40, 0, datatype.DiameterIdentity("a")), diam.NewAVP(296, 0x40, 0, datatype.DiameterIdentity("b"))))
+		select {
+		case conn = <-handles:
+		case <-time.After(time.Second):
+			return "err"
+		}
+		defer func() {
+			l.ch <- acceptRes{err: acceptPermErr{}}
+			select {
+			case <-done:
+			case <-time.After(time.Second):
+			}
+		}()
+	} else {
+		c0, err := diam.NewConn(mc, "mem", hf, dict.Default)
+		if err != nil {
+			return "err"
+		}
+		conn = c0
 	}
 	writerConn := make([]diam.Conn, G)
 	for g := range writerConn {
@@ -410,7 +436,7 @@ func execCwrite(toks []string) string {
 
 func genCwrite(r *RNG, n int, op string, emit func(string)) {
 	for i := 0; i < n; i++ {
-		emit(fmt.Sprintf("conn cwrite g=%d m=%d big=%d stall=%d seq=%d hc=%d mix=%d", 2+r.Intn(7), 1+r.Intn(6), r.Intn(2), []int{1, 1, 0}[r.Intn(3)], i, r.Intn(2), r.Intn(2)))
+		emit(fmt.Sprintf("conn cwrite g=%d m=%d big=%d stall=%d seq=%d hc=%d mix=%d wt=%d", 2+r.Intn(7), 1+r.Intn(6), r.Intn(2), []int{1, 1, 0}[r.Intn(3)], i, r.Intn(2), r.Intn(2), []int{0, 0, 1}[r.Intn(3)]))
 	}
 }
 
